@@ -28,3 +28,20 @@ pub fn v_order(n: usize) -> Vec<ValueType> {
 	v.push(-1.0);
 	v
 }
+
+use yata::core::Candle;
+
+pub fn candle(o: f64, h: f64, l: f64, c: f64, v: f64) -> Candle {
+	Candle { open: o as ValueType, high: h as ValueType, low: l as ValueType, close: c as ValueType, volume: v as ValueType }
+}
+/// candle alphabet K (all valid): flat, up, down, gap with zero volume, doji, non-dyadic
+pub fn k_candles() -> Vec<Candle> {
+	vec![
+		candle(10., 10., 10., 10., 8.),
+		candle(10., 12., 9., 11., 16.),
+		candle(11., 12., 8., 9., 4.),
+		candle(20., 24., 18., 22., 0.),
+		candle(11., 13., 9., 11., 32.),
+		candle(10.1, 10.7, 9.3, 10.3, 1.7),
+	]
+}
